@@ -45,7 +45,7 @@ def cache_path(th, harness):
     return os.path.join(WORK, 'cache', th, 'kx', harness.replace('::', '__') + '.json')
 
 
-def run_kx(units, tier, repo, use_cache=True):
+def run_kx(units, tier, repo, use_cache=True, only=None):
     """units: list of unit names.  Returns {unit: {harness_name: result}} ,
     plus the injection report."""
     th = kxrun.tree_hash(repo)
@@ -58,6 +58,8 @@ def run_kx(units, tier, repo, use_cache=True):
         results = {u: {} for u in units}
         for u, d in descs.items():
             for h in kx_select(d, tier):
+                if only is not None and h['name'] not in only:
+                    continue
                 cp = cache_path(th, h['name'])
                 if use_cache and os.path.exists(cp):
                     with open(cp) as f:
@@ -84,6 +86,7 @@ def run_kx(units, tier, repo, use_cache=True):
                     jobs = min(12, len(names))
                     log('[kx] %s: %d harness(es), timeout %ds, -j %d' % (crate, len(names), tmax, jobs))
                     r = kxrun.run_kani(work, crate, names, jobs=jobs, harness_timeout=tmax,
+                                       rss_limit_gb=max(h.get('rss_gb', 12) for _, h in lst),
                                        log=os.path.join(WORK, 'cache', th, 'kani-%s-%d.log' % (crate, int(time.time()))))
                     parsed = kxrun.parse_output(r['out'])
                     build_failed = 'error: could not compile' in r['out'] or 'error[E' in r['out']
@@ -228,6 +231,30 @@ def main(argv):
             missing = sorted(set(lock['obligations']) - set(r['obligations']))
             if missing and not r['undecided']:
                 undecided.append('%s: obligations in the lock file were not generated: %s' % (u, ', '.join(missing[:5])))
+    # A failing proof hint (ghost assert / lemma call spliced into a body) is not itself an obligation of the
+    # property: the bounded Kani harness of the same function decides whether the code or only the proof broke.
+    hint_only = {}
+    for u in vx_units:
+        for fid, det in unit_results[u].get('hint_failed', {}).items():
+            if not any(k.startswith(fid + '/') for k in unit_results[u]['failed']):
+                hint_only[fid] = det
+    for fid, det in sorted(hint_only.items()):
+        pairs = registry.VX_KX_PAIRS.get(fid, [])
+        if not pairs:
+            undecided.append('%s: %s (no bounded harness paired with this function)' % (fid, det[0]))
+            continue
+        pu = sorted(set(pu for pu, _ in pairs))
+        pres, _ = run_kx(pu, 'thorough', a.repo, only=set(h for _, h in pairs))
+        any_failed = False
+        for pu_, hname in pairs:
+            desc = load_kx_unit(pu_)
+            obs, fl, und = kx_obligations(pu_, {'crate': desc['crate'], 'harnesses': [h for h in desc['harnesses'] if h['name'] == hname]}, 'thorough', pres.get(pu_, {}))
+            for k, v in fl.items():
+                failed.setdefault(k, []).extend(v + ['(run because the Verus proof of %s broke: %s)' % (fid, det[0][:160])])
+                any_failed = True
+            kx_res.setdefault(pu_, {}).update(pres.get(pu_, {}))
+        if not any_failed:
+            undecided.append('%s: %s; the paired bounded harness(es) %s pass, so no violation is reported' % (fid, det[0], ', '.join(h for _, h in pairs)))
     kx_time = 0.0
     kx_checks = 0
     reused = 0
